@@ -49,7 +49,11 @@ Theorem C17_first_deliveries_are_dedup :
 Proof. intros h. split; [apply first_deliveries_concat|apply first_deliveries_dedup]. Qed.
 Print Assumptions C17_first_deliveries_are_dedup.
 
-(* A bulk as the proxy builds it: documents with pairwise distinct IDs and non-empty bodies, each
+(* Scope of the correspondence: a repeated ID carries the tokens of its first delivery (the same
+   bulk is re-delivered). The theorems below do not need this — in the model the first delivery
+   wins whatever a repeat carries — but the real store is only compared under it (check.py ASSUME).
+
+   A bulk as the proxy builds it: documents with pairwise distinct IDs and non-empty bodies, each
    followed by its nested metas (bulk_wf b := exists ds, wf_docs ds /\ b = pairs_of ds). Such
    bulks satisfy bulk_ok, and removing whole documents keeps them well formed. *)
 Theorem C17_wf_bulks :
